@@ -145,18 +145,18 @@ prop('C12',
 prop('C14',
      title='Field resolution never returns a value that contradicts a supplied field',
      kani=['vk_parsed_set_year', 'vk_parsed_set_year_div_100', 'vk_parsed_set_year_mod_100', 'vk_parsed_set_isoyear', 'vk_parsed_set_isoyear_div_100', 'vk_parsed_set_isoyear_mod_100', 'vk_parsed_set_quarter', 'vk_parsed_set_month', 'vk_parsed_set_week_from_sun', 'vk_parsed_set_week_from_mon', 'vk_parsed_set_isoweek', 'vk_parsed_set_ordinal', 'vk_parsed_set_day', 'vk_parsed_set_minute', 'vk_parsed_set_second', 'vk_parsed_set_nanosecond', 'vk_parsed_set_timestamp', 'vk_parsed_set_offset', 'vk_parsed_set_clock', 'vk_parsed_date_agrees', 'vk_parsed_complete_ymd', 'vk_parsed_complete_yo',
-           'vk_parsed_complete_wsun', 'vk_parsed_complete_wmon', 'vk_parsed_complete_iso', 'vk_parsed_year_groups', 'vk_parsed_insufficient', 'vk_parsed_time', 'vk_parsed_offset', 'vk_parsed_ndt_with_offset', 'vk_parsed_to_datetime'],
+           'vk_parsed_complete_wsun', 'vk_parsed_complete_wmon', 'vk_parsed_complete_iso', 'vk_parsed_year_groups', 'vk_parsed_insufficient', 'vk_parsed_time', 'vk_parsed_offset', 'vk_parsed_ndt_with_offset', 'vk_parsed_to_datetime', 'vk_parsed_to_datetime_with_timezone', 'vk_parsed_recorder_sound'],
      kani_timeout=2400,
      twin=['parsed'],
-     uncovered=['Parsed::to_datetime_with_timezone (generic TimeZone lookup: twin only)',
-                'date fields other than year/month/day/ordinal are not re-asserted at the date-time level (they are the callee contract of to_naive_date)'],
+     uncovered=[                'date fields other than year/month/day/ordinal are not re-asserted at the date-time level (they are the callee contract of to_naive_date)'],
      text='Kani proves, with all 14 date fields fully symbolic (Option<any i32/u32>), that a successful Parsed::to_naive_date agrees with every supplied field; completeness for each '
           'documented sufficient combination with every other derived field optionally present; year-group rules (century + two-digit year, 1970-2069 pivot); insufficient sets are NOT_ENOUGH; '
           'to_naive_time with all clock fields symbolic (second 60, missing seconds, nanosecond without second, exact error kinds); to_fixed_offset; every setter for every i64 '
           '(accepted exactly in range, stored exactly, second set accepted exactly when equal). Parsed::to_naive_datetime_with_offset and to_datetime are proved modularly: '
           'their callees (to_naive_date, to_naive_time, DateTime::from_timestamp, NaiveDateTime::checked_sub_signed; resp. to_naive_datetime_with_offset) are replaced by stubs that return any '
           'result their proved contracts allow, and the harness checks what the function itself adds (which result is returned, timestamp cross-check, error-kind order, leap-second step, '
-          'offset choice, no panic for every input).')
+          'offset choice, no panic for every input). Parsed::to_datetime_with_timezone is proved for EVERY zone: the harness instantiates it with a TimeZone whose answers are arbitrary '
+          '(any offset at an instant; None / Single / Ambiguous with any offsets for a local value) and checks the candidate selection against the offset field and the timestamp.')
 
 prop('C15',
      title='Fallible operations fail by value, not by panic or hang',
